@@ -1,7 +1,7 @@
 (* C16 — the table store keyed by encoded strings refines the abstract finite map keyed by key tuples
    modulo key_eq; finite-map laws, read-your-writes over histories, INNER/LEFT, alias binding. *)
 From Coq Require Import Lia.
-From SV Require Import Model.Join Proofs.JoinKeyProofs.
+From SV Require Import Model.Join Spec.JoinSpec Proofs.JoinKeyProofs.
 Import JoinM.
 
 (* ------------------------------------------------------------------ laws of the store, any key type *)
@@ -655,3 +655,76 @@ Lemma rereg_example :
    OutE (ERow [(sw_k, WV (KInt 9)); (sw_m, WR [(sw_a, KInt 2); (sw_v, KInt 9)])]);
    OutE EDrop].
 Proof. vm_compute. reflexivity. Qed.
+
+(* ------------------------------------------------------------------ WHERE over stream columns of a JOIN query *)
+(* the joins only bind their own aliases: every other key of the working map is what it was before *)
+Lemma enrich_joins_wget_other : forall K keq keyf (ts : tables K) d js w w' k,
+  enrich_joins K keq keyf ts d js w = ERow w' ->
+  forallb (fun j => negb (bytes_eqb (j_alias j) k)) js = true ->
+  wget w' k = wget w k.
+Proof.
+  intros K keq keyf ts d js. induction js as [|j js IH]; intros w w' k H Hn; simpl in *.
+  - injection H as <-. reflexivity.
+  - apply andb_prop in Hn. destruct Hn as [Hj Hn]. apply Bool.negb_true_iff in Hj.
+    destruct (tget ts (j_table j)) as [t|]; [|discriminate].
+    destruct (slookup keq _ (t_idx t)) as [r|].
+    + rewrite (IH _ _ _ H Hn). apply wget_wset_other. exact Hj.
+    + destruct (j_left j); [|discriminate].
+      rewrite (IH _ _ _ H Hn). apply wget_wset_other. exact Hj.
+Qed.
+Lemma wget_copy_row : forall d col,
+  wget (copy_row d) col = match get d col with Some v => Some (WV v) | None => None end.
+Proof.
+  intros d col. induction d as [|[g v] d IH]; simpl; [reflexivity|].
+  destruct (bytes_eqb g col); [reflexivity|exact IH].
+Qed.
+(* FROM stream s JOIN ...: "s.col" in WHERE / SELECT reads the stream row's column on the ENRICHED row of
+   every kept row, whatever the tables hold (the FROM alias exists on the enriched row only: a filter that
+   runs on the raw row sees NULL there) *)
+Theorem where_from_alias_column : forall K keq keyf c (ts : tables K) d w s col,
+  c_joins c <> [] -> c_src_alias c = Some s ->
+  forallb (fun j => negb (bytes_eqb (j_alias j) s)) (c_joins c) = true ->
+  enrich K keq keyf c ts d = ERow w ->
+  wpath w (PQual s col) = getnil d col.
+Proof.
+  intros K keq keyf c ts d w s col Hj Hs Hn H. unfold enrich in H. rewrite Hs in H.
+  destruct (c_joins c) as [|j js] eqn:Ej; [congruence|].
+  unfold wpath. rewrite (enrich_joins_wget_other _ _ _ _ _ _ _ _ _ H Hn), wget_wset_same. reflexivity.
+Qed.
+(* ... and the bare column name reads the same value, unless the name is one of the aliases *)
+Theorem where_bare_column : forall K keq keyf c (ts : tables K) d w col,
+  c_joins c <> [] ->
+  match c_src_alias c with Some s => bytes_eqb s col = false | None => True end ->
+  forallb (fun j => negb (bytes_eqb (j_alias j) col)) (c_joins c) = true ->
+  enrich K keq keyf c ts d = ERow w ->
+  wpath w (PCol col) = getnil d col.
+Proof.
+  intros K keq keyf c ts d w col Hj Hs Hn H. unfold enrich in H.
+  destruct (c_joins c) as [|j js] eqn:Ej; [congruence|].
+  unfold wpath, getnil. rewrite (enrich_joins_wget_other _ _ _ _ _ _ _ _ _ H Hn).
+  destruct (c_src_alias c) as [s|].
+  - rewrite (wget_wset_other _ _ _ _ Hs), wget_copy_row. destruct (get d col); reflexivity.
+  - rewrite wget_copy_row. destruct (get d col); reflexivity.
+Qed.
+
+(* ------------------------------------------------------------------ rows waiting in an open window *)
+Import JoinS.
+Lemma window_rows_app : forall a g v s xs ys,
+  window_rows a g v s (xs ++ ys) = window_rows a g v s xs ++ window_rows a g v s ys.
+Proof. intros. unfold window_rows. apply flat_map_app. Qed.
+(* the rows a history puts into the window, with the joined values they carry: those of the earlier part
+   of the history, followed by those of the rest run on the state the earlier part left *)
+Theorem window_rows_history : forall a g v s c hs1 hs2 (ts : tables bytes),
+  window_rows a g v s (M_hrun c ts (hs1 ++ hs2)) =
+  window_rows a g v s (M_hrun c ts hs1) ++ window_rows a g v s (M_hrun c (M_hfinal c ts hs1) hs2).
+Proof. intros. rewrite hrun_app. apply window_rows_app. Qed.
+(* the first n rows of the window -- group key, aggregated values -- are fixed once they are processed:
+   no Upsert / Delete / registration / row that comes later changes them *)
+Theorem window_contents_fixed : forall a g v s c hs1 hs2 (ts : tables bytes) n,
+  (n <= length (window_rows a g v s (M_hrun c ts hs1)))%nat ->
+  firstn n (window_rows a g v s (M_hrun c ts (hs1 ++ hs2))) = firstn n (window_rows a g v s (M_hrun c ts hs1)).
+Proof.
+  intros a g v s c hs1 hs2 ts n Hn. rewrite window_rows_history, firstn_app.
+  replace (n - length (window_rows a g v s (M_hrun c ts hs1)))%nat with O by lia.
+  simpl. apply app_nil_r.
+Qed.
